@@ -10,6 +10,6 @@ for d in seeded/*/; do
   if ! git -C /repo apply --check $patch 2>/dev/null; then echo "$id SKIP (patch does not apply to the current tree)"; continue; fi
   git -C /repo apply $patch
   out=$(./check $prop --tier $tier 2>&1); code=$?
-  git -C /repo checkout -- .
+  git -C /repo apply -R $patch 2>/dev/null; git -C /repo checkout -- .
   if [ $code -eq 1 ] && echo "$out" | grep -q "^VIOLATION property=$prop"; then echo "$id caught"; else echo "$id MISSED (exit $code)"; fi
 done
